@@ -460,6 +460,10 @@ def declare(reg):
         }}, 1: {"invariant": {"flags-kept": "forall(lambda s, k: mem(self.sequences, s, k) == mem(lpre(self.sequences), s, k), 'str', 'int')"}}},
         locals_={"msg_idxs": "list[int]", "copy_msgs": "list[tuple[str,list[str],float]]", "src_uids": "list[int]"},
         ghost={
+            "call_asserts": {"get_bytes": {
+                # C16 / C05: the bytes copied are those of the denoted message's own file (MH key), not of the file named like its position
+                "reads-the-denoted-message-file": "arg_key == str(msg_key) and msg_key == self.msg_keys[idx - 1]",
+            }},
             "cut": {"before_with": r"append_imap_cmd\.ready_and_okay\(dst_mbox\)", "asserts": {
                 # "COPY/MOVE count as their documented steps: read the source, add to the destination": when the command starts to wait
                 # for the destination mailbox it no longer occupies the source, so two opposite-direction copies cannot wait for each other
@@ -467,7 +471,7 @@ def declare(reg):
                 "waits-with-a-fresh-command": "append_imap_cmd != some(imap_cmd) or is_none(imap_cmd)",
             }},
         },
-        props=["C10"],
+        props=["C10", "C16", "C05"],
         note="second contract on Mailbox.copy: verified from entry up to the point where it queues on the destination mailbox (cut at `async with append_imap_cmd.ready_and_okay(dst_mbox)`)",
     )
     for pid in ("C15", "C05"):
